@@ -344,9 +344,18 @@ package mhprimary
 //@   internal ensures @last-existing err == nil && gfound > 0 ==> last == wrapu32(old(fileNum) + gfound - 1)
 //@   loop 0 invariant fileNum == wrapu32(old(fileNum) + gfound) && gfound >= 0 && (gfound > 0 ==> lastFound == wrapu32(old(fileNum) + gfound - 1))
 
-//@ func (mp *MultihashPrimary) StartGC(freeList *freelist.FreeList, interval time.Duration, timeLimit time.Duration, updateIndex UpdateIndexFunc)
-//@   trusted starts the collector goroutine (newGC); its body is verified separately (primaryGC.run)
+// StartGC / newGC (C17): the collector is created at most once, with its own open channels -
+// what Close relies on when it signals `stop` and waits for `done`.
+//@ func newGC(primary *MultihashPrimary, freeList *freelist.FreeList, interval time.Duration, timeLimit time.Duration, updateIndex UpdateIndexFunc) (gc *primaryGC)  property C17
+//@   fresh gc
+//@   ensures @own-open-channels gc != nil && gc.primary == primary && gc.freeList == freeList && gc.stop != nil && fresh(gc.stop) && !closed(gc.stop) && gc.done != nil && fresh(gc.done) && !closed(gc.done) && gc.visited != nil
+//@   ensures @started event("spawn:(*github.com/ipld/go-storethehash/store/primary/multihash.primaryGC).run") >= 0
+
+//@ func (mp *MultihashPrimary) StartGC(freeList *freelist.FreeList, interval time.Duration, timeLimit time.Duration, updateIndex UpdateIndexFunc)  property C17
 //@   modifies mp.gc
+//@   ensures @at-most-once old(mp.gc) != nil ==> mp.gc == old(mp.gc)
+//@   ensures @disabled (freeList == nil || interval == 0) ==> mp.gc == old(mp.gc)
+//@   ensures @started old(mp.gc) == nil && freeList != nil && interval != 0 ==> mp.gc != nil && fresh(mp.gc) && mp.gc.stop != nil && !closed(mp.gc.stop) && mp.gc.done != nil && !closed(mp.gc.done)
 
 // chunkOldPrimary (C10, C07): the legacy primary is split so that every record of a chunk starts
 // below the file-size limit - the rule Put/flushBlock and the position decoding use - and
